@@ -8,6 +8,7 @@ import (
 	"strconv"
 	"strings"
 	"testing"
+	"time"
 
 	restful "github.com/emicklei/go-restful/v3"
 	"pgregory.net/rapid"
@@ -191,7 +192,22 @@ func isMuxConflict(p interface{}) bool {
 	return strings.Contains(s, "conflicts with pattern") || strings.Contains(s, "multiple registrations")
 }
 
+// checkC11 runs the history under a watchdog: an operation or probe that never returns because
+// the library left one of its locks held is a violation (nothing "answers" any more); an expiry
+// the goroutine dump cannot explain is inconclusive.
 func checkC11(c C11Case) (vs []*Violation) {
+	blocked, expired := guarded(20*time.Second, func() { vs = checkC11History(c) })
+	if blocked != "" {
+		return []*Violation{viol("", "the history does not complete: a goroutine is parked on a lock in %s (a lock was left held by an earlier operation)", blocked)}
+	}
+	if expired {
+		inconclusive("C11", "TestC11", "the history did not complete within 20s and no goroutine is parked on a go-restful lock")
+		return nil
+	}
+	return vs
+}
+
+func checkC11History(c C11Case) (vs []*Violation) {
 	st := stats.For("C11", "TestC11")
 	ct := restful.NewContainer()
 	if c.Router == model.JSR311 {
